@@ -147,7 +147,7 @@ def gen_solve_problem(r, env, Ls, integ=None, stiff=False, big_hstart=False, con
     if conserve:
         rx, w = conserving_mech(r, ns)
     else:
-        rx = G.gen_mech(r, ns, allow_param=False); w = None
+        rx = G.gen_mech(r, ns, allow_param=True); w = None
     nrx = len(rx)
     if stiff:
         k = [r.logu(1e-3, 1e7) for _ in range(ncell * nrx)]
@@ -170,9 +170,23 @@ def gen_solve_problem(r, env, Ls, integ=None, stiff=False, big_hstart=False, con
             # user-edited parameter set: any pattern of re-used function evaluations (stage 0 always evaluates)
             st = env["ros"][pname]["stages"]
             ov["new_function_evaluation"] = [True] + [r.chance(0.5) for _ in range(5)]
+        if r.chance(0.25):
+            # user-chosen controller parameters
+            if r.chance(0.5): ov["h_min"] = r.logu(1e-8, 1e-1)
+            if r.chance(0.5): ov["h_max"] = r.logu(1e-2, 1e3)
+            if r.chance(0.3): ov["factor_min"] = r.pick([0.1, 0.25, 0.5])
+            if r.chance(0.3): ov["factor_max"] = r.pick([1.5, 2.0, 10.0])
+            if r.chance(0.3): ov["rejection_factor_decrease"] = r.pick([0.05, 0.2, 0.5])
+            if r.chance(0.3): ov["max_number_of_steps"] = r.rng(1, 40)
         ptoks = G.ros_param_tokens(env["ros"][pname], ov)
     else:
-        ptoks = G.be_param_tokens(env["be"])
+        b = dict(env["be"])
+        if r.chance(0.4):
+            # user-chosen (non-dyadic) initial step, reduction factors, iteration limit
+            if r.chance(0.6): b["h_start"] = dt * r.pick([0.2, 0.3, 0.45, 0.6, 0.8, r.unit()])
+            if r.chance(0.4): b["time_step_reductions"] = [r.pick([0.5, 0.6, 0.3, 0.1]) for _ in range(5)]
+            if r.chance(0.3): b["max_number_of_steps"] = r.rng(2, 6)
+        ptoks = G.be_param_tokens(b)
     return dict(integ=integ, L=L, csc=csc, kind=kind, ns=ns, ncell=ncell, perm=perm, rx=rx, k=k, y=y, atol=atol, rtol=rtol,
                 dt=dt, ptoks=ptoks, pname=pname, w=w)
 
@@ -236,6 +250,14 @@ def oracle_c10(c, out):
         return "non-finite input reported as Converged"
     return None
 
+def amplification(m, total_time):
+    """crude bound on how much one rounding error can be amplified by the implicit solves of a run:
+    max(1, T * ||J||) with ||J|| estimated from rate constants and concentrations"""
+    ymax = max([abs(v) for v in m["y"] if v == v and abs(v) != float("inf")] + [1.0])
+    kmax = max([abs(v) for v in m["k"] if v == v and abs(v) != float("inf")] + [0.0])
+    order = max([len([x for x in a if x < PARAM0]) for a, _ in m["rx"]] + [1])
+    return max(1.0, abs(total_time) * kmax * max(1.0, ymax) ** max(0, order - 1) * 10.0)
+
 def conserving_mech(r, ns):
     """reactions conserving the weighted sum w.y with positive integer weights (dyadic yields keep it exact in spec)"""
     w = [r.rng(1, 4) for _ in range(ns)]
@@ -277,8 +299,10 @@ def oracle_c09(c, out):
             continue   # a clipped iterate: excluded by the property
         if any(v < 0 for v in s["y"][cidx * ns:(cidx + 1) * ns]):
             pass
-        if abs(after - before) > 1e-9 * scale * nsteps:
-            return f"cell {cidx}: weighted sum w.y changed from {before!r} to {after!r} (w={w})"
+        # rounding envelope: each implicit solve can amplify a unit round-off by about T*||J||
+        tol = max(1e-9, 1e-13 * amplification(m, s["final"])) * scale * nsteps
+        if abs(after - before) > tol:
+            return f"cell {cidx}: weighted sum w.y changed from {before!r} to {after!r} (w={w}; rounding envelope {tol:.2e})"
     return None
 
 # =============================================================================== group (impl-vs-impl) oracles
@@ -313,12 +337,15 @@ def grp_cross_config(a, b):
     if sa["status"] != sb["status"] or sa["stats"] != sb["stats"]:
         a.tags.append("history_diverged")
         return None
+    if sa["status"] in ("NaNDetected", "InfDetected"):
+        return None     # the State then holds the overflowed attempt: no accuracy is promised
     n = max(1, sa["stats"]["steps"])
+    rel = max(1e-9, 1e-13 * amplification(a.meta, sa["final"]))
     for i, (u, v) in enumerate(zip(sa["y"], sb["y"])):
         if (u != u) and (v != v):
             continue
         scale = max(abs(u), abs(v), 1e-30)
-        if abs(u - v) > 1e-9 * n * scale + 1e-300:
+        if abs(u - v) > rel * n * scale + 1e-300:
             return (f"configurations disagree beyond rounding with identical step histories: y[{i}] = {u!r} ({a.meta.get('cfg')}) vs {v!r} "
                     f"({b.meta.get('cfg')}); steps {sa['stats']['steps']}")
     return None
@@ -521,7 +548,7 @@ def oracle_be_newton_linear(c, out):
     if len(tr) != st["steps"]:
         return None
     # the failure-free step-size schedule of backward_euler.inl
-    dt = m["dt"]; H = m["h_start"] if m["h_start"] != 0.0 else dt
+    dt = m["dt"]; H = min(m["h_start"], dt) if m["h_start"] != 0.0 else dt
     sched = []; t = 0.0; nsucc = 0
     while t < dt and len(sched) < 10000:
         sched.append(H); t += H; nsucc += 1
@@ -586,7 +613,7 @@ def g_c06(r, tier, env, Ls):
         if p["integ"] == 1 and r.chance(0.6):
             # backward Euler with user-chosen (non-dyadic) initial step / reduction factors
             b = dict(env["be"])
-            if r.chance(0.7): b["h_start"] = p["dt"] * r.pick([0.2, 0.3, 0.45, 0.6, 0.8, r.unit()])
+            if r.chance(0.7): b["h_start"] = p["dt"] * r.pick([0.2, 0.3, 0.45, 0.6, 0.8, r.unit(), 1.5, 2.0, 10.0])
             if r.chance(0.4): b["time_step_reductions"] = [r.pick([0.5, 0.6, 0.3, 0.1]) for _ in range(5)]
             if r.chance(0.3): b["max_number_of_steps"] = r.rng(2, 5)
             p["ptoks"] = G.be_param_tokens(b)
